@@ -256,10 +256,9 @@ impl Prop for C17Prop {
         if v.sig.contains(":value-vs-failure:") {
             return Some("unused-check-ignores-failure-of-discarded-subexpressions");
         }
-        // The partial evaluator compiles the branches of an `if` (com forms) without the
-        // let/assign bindings in force, so a parameter that reaches the result only through a bound
-        // name used under an `if` is not seen.  Excused only when spelling every `if` as the strict
-        // operator `i` (no com involved) makes the report of this very parameter disappear.
+        // The check loses uses that sit under an `if` (branches compiled by com without the
+        // bindings in force; conditions memoised by source location).  Excused only when spelling
+        // every `if` as the strict operator `i` makes the report of this very parameter disappear.
         let src = v.case.get("source")?.as_str()?;
         let name = v.case.get("parameter")?.as_str()?;
         if src.contains("(if ") && tokens_outside_params(src, name) {
@@ -267,7 +266,7 @@ impl Prop for C17Prop {
             match unused_report_bounded(&strict, 10) {
                 Some(Ok(unused)) => {
                     if !unused.iter().any(|u| u == name) {
-                        return Some("evaluator-com-leaks-let-bound-names");
+                        return Some("unused-check-loses-uses-under-if");
                     }
                 }
                 Some(Err(_)) => {}
@@ -276,7 +275,7 @@ impl Prop for C17Prop {
                 // parameters are the bindings com does not see
                 None => {
                     if crate::props::c14::has_recursive_function(src) {
-                        return Some("evaluator-com-leaks-let-bound-names");
+                        return Some("unused-check-loses-uses-under-if");
                     }
                 }
             }
